@@ -99,7 +99,7 @@ Proof.
   destruct (wire_items_marshal _ _ Ho) as [Hwo Hwe].
   cbn [wire_mac hdr fopts fc devaddr fcnt fport frm adr adrackreq ack fpending classb].
   rewrite Hwo. cbn [bind].
-  destruct (15 <? N.of_nat (length ob) mod 256) eqn:E15; [discriminate|].
+  destruct (15 <? N.of_nat (length ob)) eqn:E15; [discriminate|].
   rewrite fctrl_marshal_wire. rewrite (le_bytes2_congr _ _ Hfc).
   destruct (fctrl_marshal _) as [cb| | |]; cbn [bind]; try discriminate.
   destruct (fport m) as [q|].
@@ -164,7 +164,7 @@ Lemma mac_marshal_bytes m b ob :
   Forall byte b.
 Proof.
   intros H Hda Ho Hob Hq Hf. revert H. unfold mac_marshal, fhdr_marshal. rewrite Ho. cbn [bind].
-  destruct (15 <? N.of_nat (length ob) mod 256); [discriminate|].
+  destruct (15 <? N.of_nat (length ob)); [discriminate|].
   destruct (fctrl_marshal _) as [cb| | |] eqn:Ecb; cbn [bind]; try discriminate.
   apply fctrl_marshal_byte in Ecb.
   assert (Hh : Forall byte (rev (devaddr (hdr m)) ++ [cb] ++ le_bytes 2 (fcnt (hdr m)) ++ ob)).
